@@ -568,7 +568,8 @@ def minimize_lbfgsb(
                 mats = LBFGSB_MATRICES(n)
         else:
             # x update
-            x += steplength * d
+            # same projected point as the one evaluated by the line search
+            x = np.clip(x + steplength * d, lb, ub)
 
             # new evaluation -> normally, the function has been updated in
             # the linesearch step
